@@ -8,6 +8,8 @@ internal placeholder.  PARTIAL: the writer is not modelled; decided on the gener
 """
 from __future__ import annotations
 
+import json
+
 import re
 from typing import Any
 
@@ -24,6 +26,56 @@ THEOREMS = [
 PLACEHOLDER = re.compile(r"\|\|\||DUMMY|^LOOP_\d+$|^LOOP$")
 
 
+def writable(b: Any, top: bool = True) -> bool:
+    """block structures the PUML graph can hold as they are: every break follows an event (a break is an attribute of
+    an event node)"""
+    if b[0] == "seq":
+        its = b[1]
+        for i, x in enumerate(its):
+            if x[0] == "brk" and (i == 0 or its[i - 1][0] != "ev"):
+                return False
+            if not writable(x, False):
+                return False
+        return True
+    if b[0] == "fork":
+        return all(writable(br, False) for br in b[2])
+    if b[0] == "loop":
+        return writable(b[1], False)
+    return True
+
+
+def writer_part(ctx: Ctx, cases: list[dict[str, Any]]) -> None:
+    """the real writer against the Lean grammar, without the learner in between: `PUMLGraph.write_puml_string` on graphs
+    built with the graph's own constructors from the block structures of the generated definitions; the Lean parser
+    must give the block structure back (up to the order of branches, which the writer's depth-first walk reverses).
+    `grammar_complete` is about Lean's `render`; this ties the parser to what the repository's writer prints."""
+    from .c03 import norm_blk
+    blks = [c["blk"] for c in cases if c["kind"] != "corpus" and writable(c["blk"])]
+    if not blks:
+        return
+    rp = pvlib.run_requests([{"op": "write_blk", "blks": blks, "hash_seed": 0, "timeout": 300}])[0]
+    if "error" in rp:
+        ctx.broken_ties.append(f"writer correspondence: worker failed: {rp['error'][:200]}")
+        return
+    texts = [r.get("text") for r in rp["results"]]
+    parsed = pvlib.lean([{"op": "dg.parse", "text": t or ""} for t in texts])
+    for blk, r, pr in zip(blks, rp["results"], parsed):
+        ctx.tick("writer_texts_parsed")
+        if "error" in r:
+            ctx.violation(f"correspondence: the writer raised on a graph built from a block structure: {r['error']}",
+                          {"input": {"blk": blk}}, key=("writer", blk), concrete=False)
+        elif not pr.get("ok"):
+            ctx.violation(f"correspondence: the Lean grammar does not accept what write_puml_string prints for a block "
+                          f"structure: {str(pr.get('error'))[:160]}", {"input": {"blk": blk}, "text": r["text"]},
+                          key=("writer", blk), concrete=False)
+        elif json.dumps(norm_blk(pr["blk"])) != json.dumps(norm_blk(blk)):
+            ctx.violation("correspondence: the Lean parser reads another block structure than the one the writer printed",
+                          {"input": {"blk": blk}, "text": r["text"], "parsed": pr["blk"]}, key=("writer", blk),
+                          concrete=False)
+        if ctx.too_many():
+            break
+
+
 def run(ctx: Ctx) -> None:
     ctx.prove(["O2P.Props.C05"], THEOREMS)
     if ctx.tier == "thorough":
@@ -37,6 +89,7 @@ def run(ctx: Ctx) -> None:
         "event names must be exactly the input's event types. non-trivial: the definition has a loop, a fork nested in "
         "a fork, or several start events"
     )
+    writer_part(ctx, cases)
     lc.learn_all(ctx, cases)
     lc.judge_all(cases, want_subset=False)
     for c in cases:
